@@ -170,6 +170,9 @@ def judge(out, case, it, oc, exc, ctx):
             continue
         what = '%s%s V=%s L=%s start=%s' % (key[0], key[1], tr['V'], tr['L'], tr['start'])
         if okev is None:
+            if d is not None and abs(float(d) - float(tr['remove'])) <= 1e-9 * (1 + abs(float(d))):
+                out.features.add('tie_removal_completion')      # equal up to rounding: either may win
+                continue
             if d is not None and d < tr['remove']:
                 out.fail('fluid', 'not_completed', '%s should have completed at %s but was still running when removed at %s;%s' % (
                     what, float(d), float(tr['remove']), ctx))
